@@ -4,7 +4,7 @@ Import ListNotations. Open Scope Z_scope.
 
 (* ------------------------------------------------------------------ environment preserved *)
 Definition same_env (s s1 : Sess) : Prop :=
-  store s1 = store s /\ exts s1 = exts s /\ tracing s1 = tracing s.
+  store s1 = store s /\ exts s1 = exts s /\ tracing s1 = tracing s /\ ns s1 = ns s.
 Lemma same_env_refl s : same_env s s. Proof. repeat split. Qed.
 Lemma same_env_trans a b c : same_env a b -> same_env b c -> same_env a c.
 Proof. unfold same_env. intuition congruence. Qed.
@@ -17,7 +17,8 @@ Qed.
 Lemma visit_deps_env deps : forall s, same_env s (fst (visit_deps s deps)).
 Proof.
   induction deps as [|x r IH]; simpl; intros s; [apply same_env_refl|].
-  pose proof (get_parsed_env s x) as H. destruct (get_parsed s x) as [s1 [d|]]; simpl in *; auto.
+  destruct (lookup (ns s) x) as [i|]; [|apply same_env_refl].
+  pose proof (get_parsed_env s i) as H. destruct (get_parsed s i) as [s1 [d|]]; simpl in *; auto.
   eapply same_env_trans; eauto.
 Qed.
 Lemma get_checked_env s id : same_env s (fst (get_checked s id)).
@@ -77,20 +78,21 @@ Proof.
 Qed.
 
 Lemma exec_env f h : forall s,
-  exists extra, store (exec f h s) = store s ++ extra /\ exts (exec f h s) = exts s /\
-                tracing (exec f h s) = tracing s.
+  exists extra nx, store (exec f h s) = store s ++ extra /\ exts (exec f h s) = exts s /\
+                tracing (exec f h s) = tracing s /\ ns (exec f h s) = ns s ++ nx.
 Proof.
   unfold exec. induction h as [|o h IH]; simpl; intros s.
-  - exists []. rewrite app_nil_r. auto.
-  - destruct (IH (exec_op f s o)) as [ex [H1 [H2 H3]]].
-    assert (exists e0, store (exec_op f s o) = store s ++ e0 /\ exts (exec_op f s o) = exts s
-                       /\ tracing (exec_op f s o) = tracing s) as [e0 [G1 [G2 G3]]].
+  - exists [], []. rewrite !app_nil_r. auto.
+  - destruct (IH (exec_op f s o)) as [ex [nx [H1 [H2 [H3 H4]]]]].
+    assert (exists e0 n0, store (exec_op f s o) = store s ++ e0 /\ exts (exec_op f s o) = exts s
+                       /\ tracing (exec_op f s o) = tracing s /\ ns (exec_op f s o) = ns s ++ n0)
+      as [e0 [n0 [G1 [G2 [G3 G4]]]]].
     { destruct o; simpl.
-      - eexists; repeat split.
-      - destruct (check_env f s id) as [A [B C]]. exists []. rewrite app_nil_r. auto.
-      - destruct (compile_env f s id) as [A [B C]]. exists []. rewrite app_nil_r. auto.
-      - exists []. rewrite app_nil_r. auto. }
-    exists (e0 ++ ex). rewrite H1, G1, app_assoc. repeat split; congruence.
+      - eexists; eexists; repeat split.
+      - destruct (check_env f s id) as [A [B [C D]]]. exists [], []. rewrite !app_nil_r. auto.
+      - destruct (compile_env f s id) as [A [B [C D]]]. exists [], []. rewrite !app_nil_r. auto.
+      - exists [], []. rewrite !app_nil_r. auto. }
+    exists (e0 ++ ex), (n0 ++ nx). rewrite H1, G1, H4, G4, !app_assoc. repeat split; congruence.
 Qed.
 
 (* ------------------------------------------------------------------ canonical renumbering *)
@@ -123,7 +125,7 @@ Qed.
 
 (* ------------------------------------------------------------------ the simulation *)
 Definition crelc (k : Z) (c c' : Checked) : Prop :=
-  c_def c = c_def c' /\ c_exit c = c_exit c' /\ c_input_tys c = c_input_tys c' /\
+  c_def c = c_def c' /\ c_deps c = c_deps c' /\ c_exit c = c_exit c' /\ c_input_tys c = c_input_tys c' /\
   c_const0 c' = c_const0 c + k /\ forallb wfvar (d_row (c_def c)) = true.
 Definition crel (k : Z) (p p' : Z * Checked) : Prop := fst p = fst p' /\ crelc k (snd p) (snd p').
 
@@ -135,7 +137,7 @@ Lemma lower1_sim k id c c' : crelc k c c' ->
   crelc k (fst (lower1 id c)) (fst (lower1 id c')) /\
   snd (lower1 id c') = shift_frag k (snd (lower1 id c)).
 Proof.
-  intros [Hd [He [Hi [Hc Hw]]]]. unfold lower1, guarded_insert. rewrite <- He.
+  intros [Hd [Hdp [He [Hi [Hc Hw]]]]]. unfold lower1, guarded_insert. rewrite <- He.
   assert (Hs : gen_syms c' = map (Z.add k) (gen_syms c)).
   { unfold gen_syms. rewrite <- Hd, Hc, map_map. apply map_ext. intros. lia. }
   assert (Hr : sort_vars compare_var_name_order (c_tmp0 c') (d_row (c_def c))
@@ -143,7 +145,7 @@ Proof.
   { rewrite (sort_shift (c_tmp0 c')), (sort_shift (c_tmp0 c)); auto. }
   destruct (negb guard_present || forallb (fun v => negb (is_return_var v)) (c_exit c));
     simpl; rewrite <- Hd; destruct (d_rec_closure (c_def c)); simpl;
-    (split; [unfold crelc; simpl; rewrite <- ?Hd, <- ?He, <- ?Hi; repeat split; auto
+    (split; [unfold crelc; simpl; rewrite <- ?Hd, <- ?Hdp, <- ?He, <- ?Hi; repeat split; auto
             | unfold shift_frag; simpl; rewrite Hr, Hs, <- ?Hd, <- ?He; reflexivity]).
 Qed.
 
@@ -248,6 +250,7 @@ Proof.
   destruct (lookup (checked s) id) as [c|], (lookup (checked s') id) as [c'|]; try contradiction;
     [|simpl; auto].
   destruct L as [Hd L]. pose proof (conj Hd L) as Hc. rewrite <- Hd.
+  destruct L as [Hdp _]. rewrite <- Hdp.
   destruct (d_comptime (c_def c) && negb (d_trace_ok (c_def c))); [simpl; auto|].
   destruct (lower_sim k id (d_insts (c_def c)) c c' Hc) as [A B].
   destruct (lower (d_insts (c_def c)) id c) as [c1 fs], (lower (d_insts (c_def c)) id c') as [c1' fs'].
@@ -255,13 +258,19 @@ Proof.
 Qed.
 
 Section Cone.
-Variable P : Z -> Prop.
+Variable P : Z -> Prop.      (* the DefIds of the cone *)
+Variable N : Z -> Prop.      (* the names the cone's definitions look up *)
 
-Definition def_ok (d : Def) : Prop := Forall P (d_deps d) /\ forallb wfvar (d_row d) = true.
+Definition resolves (s : Sess) (x : Z) : Prop :=
+  N x /\ exists i, lookup (ns s) x = Some i /\ P i.
+Definition def_ok (s : Sess) (d : Def) : Prop :=
+  Forall (resolves s) (d_deps d) /\ forallb wfvar (d_row d) = true.
 Definition closed (s : Sess) : Prop :=
-  forall id, P id -> exists d, lookup (store s) id = Some d /\ def_ok d.
+  (forall id, P id -> exists d, lookup (store s) id = Some d /\ def_ok s d) /\
+  (forall x, N x -> exists i, lookup (ns s) x = Some i).
 Definition agree (s s' : Sess) : Prop :=
-  forall id, P id -> lookup (store s) id = lookup (store s') id.
+  (forall id, P id -> lookup (store s) id = lookup (store s') id) /\
+  (forall x, N x -> lookup (ns s) x = lookup (ns s') x).
 
 Record R (k : Z) (s s' : Sess) : Prop := mkR {
   R_agree : agree s s'; R_closed : closed s;
@@ -272,12 +281,12 @@ Record R (k : Z) (s s' : Sess) : Prop := mkR {
   R_const : const_ctr s' = const_ctr s + k }.
 
 Lemma get_parsed_sim k s s' id : R k s s' -> P id ->
-  exists d, def_ok d /\ snd (get_parsed s id) = Some d /\ snd (get_parsed s' id) = Some d /\
+  exists d, def_ok s d /\ snd (get_parsed s id) = Some d /\ snd (get_parsed s' id) = Some d /\
             R k (fst (get_parsed s id)) (fst (get_parsed s' id)).
 Proof.
-  intros H HP. destruct H. destruct (R_closed0 id HP) as [d [Hl Hok]].
+  intros H HP. destruct H. destruct (proj1 R_closed0 id HP) as [d [Hl Hok]].
   exists d. split; auto. unfold get_parsed.
-  rewrite <- R_parsed0, <- (R_agree0 id HP), Hl.
+  rewrite <- R_parsed0, <- (proj1 R_agree0 id HP), Hl.
   destruct (memz id (parsed s)); simpl.
   - split; [reflexivity|]. split; [reflexivity|]. constructor; auto.
   - split; [reflexivity|]. split; [reflexivity|]. constructor; simpl; auto.
@@ -287,14 +296,32 @@ Proof.
     + destruct (d_type d); auto.
 Qed.
 
-Lemma visit_deps_sim k deps : forall s s', R k s s' -> Forall P deps ->
+Lemma def_ok_env s s1 d : same_env s s1 -> def_ok s d -> def_ok s1 d.
+Proof.
+  intros [_ [_ [_ E]]] [A B]. split; auto. eapply Forall_impl; [|exact A].
+  intros x [HN [i [Hi HP]]]. split; auto. exists i. rewrite E. auto.
+Qed.
+
+Lemma visit_deps_sim k deps : forall s s', R k s s' -> Forall (resolves s) deps ->
   snd (visit_deps s deps) = None /\ snd (visit_deps s' deps) = None /\
   R k (fst (visit_deps s deps)) (fst (visit_deps s' deps)).
 Proof.
   induction deps as [|x r IH]; simpl; intros s s' H HF; [auto|].
-  inversion HF; subst.
-  destruct (get_parsed_sim k s s' x H) as [d [_ [A [B C]]]]; auto.
-  destruct (get_parsed s x) as [s1 o], (get_parsed s' x) as [s1' o']. simpl in *. subst. auto.
+  inversion HF as [|? ? [HN [i [Hi HP]]] HF']; subst.
+  rewrite <- (proj2 (R_agree _ _ _ H) x HN), Hi.
+  destruct (get_parsed_sim k s s' i H HP) as [d [_ [A [B C]]]].
+  pose proof (get_parsed_env s i) as E.
+  destruct (get_parsed s i) as [s1 o], (get_parsed s' i) as [s1' o']. simpl in *. subst.
+  apply IH; auto. eapply Forall_impl; [|exact HF'].
+  intros y [HNy [j [Hj HPj]]]. split; auto. exists j. destruct E as [_ [_ [_ E]]]. rewrite E. auto.
+Qed.
+
+Lemma resolve_all_sim k s s' deps : R k s s' -> Forall (resolves s) deps ->
+  resolve_all s deps = resolve_all s' deps.
+Proof.
+  intros H HF. unfold resolve_all. apply map_ext_in. intros x Hx.
+  rewrite Forall_forall in HF. destruct (HF x Hx) as [HN _].
+  rewrite (proj2 (R_agree _ _ _ H) x HN). reflexivity.
 Qed.
 
 Lemma get_checked_sim k s s' id : R k s s' -> P id ->
@@ -304,12 +331,20 @@ Proof.
   intros H HP. unfold get_checked.
   rewrite <- (checked_mem_sim k id _ _ (R_checked _ _ _ H)).
   destruct (existsb _ (checked s)); [auto|].
-  destruct (get_parsed_sim k s s' id H HP) as [d [[Hdeps Hw] [A [B C]]]].
-  destruct (get_parsed s id) as [s1 o], (get_parsed s' id) as [s1' o']. simpl in A, B, C. subst.
+  destruct (get_parsed_sim k s s' id H HP) as [d [Hok [A [B C]]]].
+  pose proof (get_parsed_env s id) as E1.
+  destruct (get_parsed s id) as [s1 o], (get_parsed s' id) as [s1' o']. simpl in A, B, C, E1. subst.
+  destruct (def_ok_env _ _ _ E1 Hok) as [Hdeps Hw].
   destruct (visit_deps_sim k (d_deps d) s1 s1' C Hdeps) as [A2 [B2 C2]].
+  pose proof (visit_deps_env (d_deps d) s1) as E2.
   destruct (visit_deps s1 (d_deps d)) as [s2 b], (visit_deps s1' (d_deps d)) as [s2' b'].
-  simpl in A2, B2, C2. subst. destruct C2.
-  destruct (d_check_ok d); simpl; split; auto; constructor; simpl; auto; try lia.
+  simpl in A2, B2, C2, E2. subst.
+  assert (HR : resolve_all s2 (d_deps d) = resolve_all s2' (d_deps d)).
+  { apply (resolve_all_sim k); auto. eapply Forall_impl; [|exact Hdeps].
+    intros y [HNy [j [Hj HPj]]]. split; auto. exists j. destruct E2 as [_ [_ [_ E]]]. rewrite E. auto. }
+  unfold resolve_all in HR. destruct C2 as [[Ag1 Ag2] Cl ? ? ? ? ? ? ?].
+  destruct (d_check_ok d); simpl; split; auto; constructor; simpl; auto; try lia;
+    try (split; assumption).
   constructor; auto. unfold crel, crelc. simpl. repeat split; auto; lia.
 Qed.
 
@@ -345,8 +380,8 @@ Lemma check_sim f s s' id : agree s s' -> closed s -> P id ->
   snd (check f s id) = snd (check f s' id) /\
   R (const_ctr s' - const_ctr s) (fst (check f s id)) (fst (check f s' id)).
 Proof.
-  intros Ha Hc HP. unfold check. simpl. rewrite <- (Ha id HP).
-  destruct (Hc id HP) as [d [Hl _]]. rewrite Hl.
+  intros Ha Hc HP. unfold check. simpl. rewrite <- (proj1 Ha id HP).
+  destruct (proj1 Hc id HP) as [d [Hl _]]. rewrite Hl.
   apply check_loop_sim. constructor; simpl; auto. lia.
 Qed.
 
@@ -371,24 +406,34 @@ Proof.
   assert (exts s2 = exts s2') as -> by congruence. reflexivity.
 Qed.
 
-(* any two histories from a session whose store resolves the cone *)
+(* any two histories from a session whose store and namespace resolve the cone *)
 Lemma exec_agree f h s0 : closed s0 -> agree s0 (exec f h s0) /\ closed (exec f h s0).
 Proof.
-  intros Hc. destruct (exec_env f h s0) as [ex [Hs _]]. split.
-  - intros id HP. destruct (Hc id HP) as [d [Hl _]]. rewrite Hs, Hl.
+  intros Hc. destruct (exec_env f h s0) as [ex [nx [Hs [_ [_ Hn]]]]].
+  assert (HN : forall x i, lookup (ns s0) x = Some i -> lookup (ns (exec f h s0)) x = Some i).
+  { intros x i Hx. rewrite Hn. apply lookup_app_found. exact Hx. }
+  split; [split|].
+  - intros id HP. destruct (proj1 Hc id HP) as [d [Hl _]]. rewrite Hs, Hl.
     symmetry. apply lookup_app_found. exact Hl.
-  - intros id HP. destruct (Hc id HP) as [d [Hl Hok]]. exists d. split; auto.
-    rewrite Hs. apply lookup_app_found. exact Hl.
+  - intros x Hx. destruct (proj2 Hc x Hx) as [i Hi]. rewrite Hi. symmetry. auto.
+  - split.
+    + intros id HP. destruct (proj1 Hc id HP) as [d [Hl [Hd Hw]]]. exists d. split.
+      * rewrite Hs. apply lookup_app_found. exact Hl.
+      * split; auto. eapply Forall_impl; [|exact Hd].
+        intros x [HNx [i [Hi HPi]]]. split; auto. exists i. auto.
+    + intros x Hx. destruct (proj2 Hc x Hx) as [i Hi]. exists i. auto.
 Qed.
 
 Lemma history_independent_lemma f s0 h1 h2 id : closed s0 -> P id ->
   outcome f (exec f h1 s0) id = outcome f (exec f h2 s0) id.
 Proof.
   intros Hc HP.
-  destruct (exec_agree f h1 s0 Hc) as [A1 C1]. destruct (exec_agree f h2 s0 Hc) as [A2 C2].
-  destruct (exec_env f h1 s0) as [? [_ [E1 _]]]. destruct (exec_env f h2 s0) as [? [_ [E2 _]]].
+  destruct (exec_agree f h1 s0 Hc) as [[A1 B1] C1]. destruct (exec_agree f h2 s0 Hc) as [[A2 B2] C2].
+  destruct (exec_env f h1 s0) as [? [? [_ [E1 _]]]]. destruct (exec_env f h2 s0) as [? [? [_ [E2 _]]]].
   apply compile_sim; auto; [|congruence].
-  intros y HY. rewrite <- (A1 y HY), <- (A2 y HY). reflexivity.
+  split.
+  - intros y HY. rewrite <- (A1 y HY), <- (A2 y HY). reflexivity.
+  - intros y HY. rewrite <- (B1 y HY), <- (B2 y HY). reflexivity.
 Qed.
 End Cone.
 
@@ -413,7 +458,8 @@ Qed.
 Lemma visit_deps_checked deps : forall s, checked (fst (visit_deps s deps)) = checked s.
 Proof.
   induction deps as [|x r IH]; simpl; intros; [reflexivity|].
-  pose proof (get_parsed_checked s x). destruct (get_parsed s x) as [s1 [d|]]; simpl in *; auto.
+  destruct (lookup (ns s) x) as [i|]; [|reflexivity].
+  pose proof (get_parsed_checked s i). destruct (get_parsed s i) as [s1 [d|]]; simpl in *; auto.
   rewrite IH. auto.
 Qed.
 Lemma get_checked_fresh s id : Forall fresh_cfg (checked s) ->
